@@ -32,8 +32,9 @@ def run(tier):
         cmds.append("setoff 0 %d" % start)
         if use_file:
             path = os.path.join(wd, "c14-%d.asm" % len(cases))
-            with open(path, "w") as f:
-                f.write("\n".join(lines) + "\n")
+            with open(path, "w", newline="") as f:
+                sep = ["\n", "\r\n"][len(cases) % 2]
+                f.write(sep.join(lines) + (sep if len(cases) % 3 else ""))  # LF or CRLF, with or without a final line end
             cmds.append("filecnt 0 %d %s" % (c, path))
         else:
             cmds.append("cnt 0 %d %s" % (c, common.hx("\n".join(lines))))
@@ -53,12 +54,12 @@ def run(tier):
                 add(c, 0, [clc] * q + [(line, h), ("ret", "c3")], "grid")
     nrand = 1500 if not full else 60000
     for k in range(nrand):
-        c = rnd.choice(cs + [0, 1, -1, 2, 1000000])
+        c = rnd.choice(cs + [0, 1, -1, 2, 1000000, 128, 255, 256, 1024, 32768, 65536])
         prog = [rnd.choice(allc) for _ in range(rnd.randrange(1, 40))]
         tot = sum(len(p[1]) // 2 for p in prog)
         if k % 5 == 0:
             c = rnd.choice([tot, tot + 1, max(2, tot - 1)])
-        start = rnd.choice([0, 1, 2, 3, 7, 19] + ([abs(c) - 1, abs(c), abs(c) + 1] if 2 <= abs(c) < 200 else []))
+        start = rnd.choice([0, 1, 2, 3, 7, 19] + ([abs(c) - 1, abs(c), abs(c) + 1] if 2 <= abs(c) < 200 else [])) if k % 7 else rnd.choice([65533, 65536, 70001, 131071])
         second = [rnd.choice(allc) for _ in range(rnd.randrange(1, 20))] if k % 3 == 0 else None
         prior = (rnd.choice([2, 3, 5, 8]), [rnd.choice(allc) for _ in range(rnd.randrange(2, 12))]) if k % 4 == 1 else None
         add(c, max(0, start), prog, "random", second, use_file=(k % 7 == 0), prior_fail=prior)
